@@ -39,10 +39,17 @@ pub fn obs(st: &LpgStore, nn: u64, ne: u64) -> J {
     }).collect();
     let ge: Vec<J> = (0..ne).map(|i| match st.get_edge(EdgeId::new(i)) { Some(e) => json!([1, e.src.as_u64() + 1, e.dst.as_u64() + 1]), None => json!([0, 0, 0]) }).collect();
     let fp: Vec<Vec<u64>> = [1i64, 2, 3].iter().map(|v| ids(st.find_nodes_by_property("k1", &Value::Int64(*v)))).collect();
+    let mut ebt = Vec::<u64>::new();
+    for e in st.edges_with_type("T") { ebt.push(e.id.as_u64() + 1); }
+    ebt.sort_unstable();
+    let ety: Vec<i64> = (0..ne).map(|i| st.edge_type(EdgeId::new(i)).map(|t| (t.as_str() == "T") as i64).unwrap_or(-1)).collect();
     json!({
         "nn": nn, "ne": ne, "gn": gn, "ge": ge,
         "la": ids(st.nodes_by_label("A")), "ids": ids(st.node_ids()), "nc": st.node_count(), "ec": st.edge_count(),
         "fp": fp,
+        // lookup by edge type (every edge of the programs has type T) and the edges' own type names
+        "ebt": ebt,
+        "ety": ety,
         "out": (0..nn).map(|i| eids(st.edges_from(NodeId::new(i), Direction::Outgoing))).collect::<Vec<_>>(),
         "inn": (0..nn).map(|i| eids(st.edges_from(NodeId::new(i), Direction::Incoming))).collect::<Vec<_>>(),
         "od": (0..nn).map(|i| st.out_degree(NodeId::new(i))).collect::<Vec<_>>(),
